@@ -405,7 +405,7 @@ def _DefocusPSF_1D(PSF_size, PSF_param):
         PSF[center] = 1
     else:
         PSF = np.ones(PSF_size) / (np.pi * PSF_param**2)
-        k = np.arange(1, PSF_size+1)
+        k = np.arange(0, PSF_size) # pixel indices (0-based, as `center` is)
         aa = (k-center)**2
         idx = np.array((aa > (PSF_param**2)))
         PSF[idx] = 0
